@@ -288,6 +288,18 @@ std::vector<Value> FilterUtility::GetFilterTargets(const QueryDescription& qd, c
 			bool shadowedVars = filter_vars && (filter_vars->Contains("obj") || filter_vars->Contains("host")
 				|| filter_vars->Contains("service") || (!variableName.IsEmpty() && filter_vars->Contains(variableName)));
 
+			/* ... and so does it with the names of the target type's navigation fields (check_command, ...). */
+			Type::Ptr targetType = Type::GetByName(type);
+
+			if (filter_vars && targetType) {
+				for (int fid = 0; fid < targetType->GetFieldCount() && !shadowedVars; fid++) {
+					Field field = targetType->GetFieldInfo(fid);
+
+					if (field.Attributes & FANavigation)
+						shadowedVars = filter_vars->Contains(field.NavigationName ? field.NavigationName : field.Name);
+				}
+			}
+
 			if (!shadowedVars && dynamic_cast<ConfigObjectTargetProvider*>(provider.get())) {
 				auto dict (dynamic_cast<DictExpression*>(ufilter.get()));
 
